@@ -203,6 +203,39 @@ def h_kernel(ctx):
     ctx.require("count", Eq(len(issues), If(m > emm, 1, 0) + If(loc > eml, 1, 0) + If(And(ck, kw), 1, 0)))
 
 
+def h_member_kinds(ctx):
+    """Which members count as public methods, with the kind of every member a solver variable over the whole grammar."""
+    from vsym.nodes import Duck
+    from vsym.pathex import If
+    from vsym.symkind import SKind, kind_table, symbolic_tables
+    lang = ctx.pick("grammar", ("typescript", "rust"))
+    table = kind_table(lang)
+    n = 3
+    kinds = [SKind(ctx, f"member{i}_kind", table) for i in range(n)]
+    names = [ctx.pick(f"member{i}_name", ("run", "_helper", "constructor", "new")) for i in range(n)]
+    if lang == "typescript":
+        import src.linters.srp.typescript_metrics_calculator as mod
+        members = [Duck(kinds[i], "", [Duck("property_identifier", names[i])]) for i in range(n)]
+        cls = Duck("class_declaration", "", [Duck("type_identifier", "S"), Duck("class_body", "", members)])
+        with symbolic_tables(mod):
+            got = mod.count_methods(cls)
+        want = 0
+        for i in range(n):
+            ok = names[i] not in ("constructor",) and not names[i].startswith("_")
+            want = want + If(And(kinds[i] == "method_definition", ok), 1, 0)
+    else:
+        import src.linters.srp.rust_analyzer as mod
+        members = [Duck(kinds[i], "", [Duck("identifier", names[i])]) for i in range(n)]
+        impl = Duck("impl_item", "", [Duck("type_identifier", "S"), Duck("declaration_list", "", members)])
+        with symbolic_tables(mod, mod.RustSRPAnalyzer):
+            got = mod.RustSRPAnalyzer().count_impl_methods(impl)
+        want = 0
+        for i in range(n):
+            want = want + If(And(kinds[i] == "function_item", not names[i].startswith("_")), 1, 0)
+    ctx.cover("some-counted" if (bool(got > 0) if hasattr(got, "z") else got > 0) else "none-counted")
+    ctx.require("exactly-the-public-method-kinds-are-counted", Eq(got, want), grammar=lang, names=names)
+
+
 ASSUMPTIONS = (
     "thresholds declared >= 1 in the whole-rule harness (non-positive values are C05's subject; the kernel harness covers them)",
     "lines of code = non-blank, non-comment lines of the class/struct+impl text, as documented",
@@ -230,4 +263,8 @@ def obligations(tier):
                    % ("0..3" if quick else "{0,1,2,3,5,8}")),
            timeout=240 if quick else 1500, workers=14, must_cover=("reported", "clean"),
            outside="TS private/#private/getter members, Rust non-pub non-underscore fns and trait impls (documentation does not say), docstrings"),
+        Ob(name="K3-member-kinds-whole-grammar", engine="pathex", harness=h_member_kinds,
+           functions=["typescript_metrics_calculator.count_methods/_is_countable_method/_get_method_name", "RustSRPAnalyzer.count_impl_methods/_is_countable_method"],
+           bounds="3 members whose kinds are solver variables over the complete kind table of the grammar (TS 383 / Rust 355 kinds, symbolic to the end); member names from {run, _helper, constructor, new}",
+           timeout=200, workers=8, must_cover=("some-counted", "none-counted"), stubs=("duck-typed tree-sitter nodes", "symbolic_tables wrapper")),
     ]
